@@ -689,6 +689,15 @@ fn check_input(prop: &str, s: &dyn Subject, sd: &SubjectDef, p: &Prepared, input
             }
             "C13" => {
                 f.extend(callback_findings(s, sd, input, &obs, run.as_deref_mut(), key));
+                // the protocol also holds when the buffer is a prefix: a callback runs once per winning match, on that match -
+                // never on a match the rest of the input extends (short inputs: every split point)
+                if sd.family == "callbacks" && input.len() <= 24 {
+                    for mut x in partial_cb_findings(s, sd, utf8, input, &obs, None, key) {
+                        x.property = "C13";
+                        x.what = format!("callbacks under partial lexing: {}", x.what);
+                        f.push(x);
+                    }
+                }
             }
             "C20" => {
                 f.extend(trace_findings(&obs, run.as_deref_mut(), key));
